@@ -4,7 +4,7 @@
    ([value] = sum over all internal bond assignments of the product of entries). *)
 From Coq Require Import List Arith Lia Bool ZArith QArith.
 From QV Require Import Tensor.Sums Tensor.Net Tensor.StartStop Tensor.Contract Tensor.ContractZ
-  Tensor.Sweep Tensor.Ladder Tensor.Exact Tensor.Noop Tensor.Split Tensor.WfCheck Tensor.Examples.
+  Tensor.Sweep Tensor.Ladder Tensor.Exact Tensor.Noop Tensor.Split Tensor.WfCheck Tensor.Transpose Tensor.Examples.
 Import ListNotations.
 Local Open Scope nat_scope.
 
@@ -80,10 +80,16 @@ Proof. exact netwfb_sound. Qed.
 Definition c11_transpose_statement : Prop :=
   forall (K : cring) r c (tn : list (list (option (tensor K)))), netwf K r tn -> length tn = c ->
     value c (transpose_net K r tn) = value r tn.
-(* proved part: the tensor transpose is an involution (numpy.transpose reverses the four axes) *)
+(* proved parts: (a) the tensor transpose is an involution (numpy.transpose reverses the four axes);
+   (b) the statement for single-column networks: an r x 1 network whose horizontal legs are dummies and
+   its 1 x r transpose have the same value, for every r and every vertical bond dimension *)
 Theorem c11_transpose_partial : forall (K : cring) (t : tensor K),
   transpose_tensor K (transpose_tensor K t) = t.
-Proof. intros K [a b c d v]. reflexivity. Qed.
+Proof. exact transpose_tensor_involutive. Qed.
+Theorem c11_transpose_partial_single_column : forall (K : cring) (A : list (option (tensor K))),
+  A <> [] -> hdummy K A -> vchain K A -> hd_dn K A = 1 -> dso K (last A None) = 1 ->
+  value 1 (transpose_net K (length A) [A]) = value (length A) [A].
+Proof. exact transpose_single_column_value. Qed.
 
 (* non-vacuity: a concrete padded 2 x 3 network is well-shaped; sweeps, splits and spec agree *)
 Theorem c11_example_wf : netwf Zring 2 ex_net.
@@ -99,5 +105,5 @@ Proof. exact ex_values. Qed.
 Print Assumptions c11_pairwise_sem. Print Assumptions c11_ladder_scalar. Print Assumptions c11_sweep_exact.
 Print Assumptions c11_split. Print Assumptions c11_truncate_noop. Print Assumptions c11_guard_cases.
 Print Assumptions c11_contract_noop_unset. Print Assumptions c11_contract_noop_mask. Print Assumptions c11_contract_noop_chi.
-Print Assumptions c11_start_stop_sound. Print Assumptions c11_start_stop_error. Print Assumptions c11_transpose_partial.
+Print Assumptions c11_start_stop_sound. Print Assumptions c11_start_stop_error. Print Assumptions c11_transpose_partial. Print Assumptions c11_transpose_partial_single_column.
 Print Assumptions c11_netwfb_sound. Print Assumptions c11_example_wf. Print Assumptions c11_example_values.
